@@ -211,8 +211,8 @@ func (t *Indexer) GetBlockHeaderByHeight(height uint64) (*lib.BlockResult, lib.E
 	if err != nil {
 		return nil, err
 	}
-	// populate cache on read so historical blocks are warm after a restart
-	blockCache.Add(height, block)
+	// NOTE: do not add the header-only result to the block cache: the cache is shared with
+	// GetBlockByHeight() (and thus GetQCByHeight()), which would then serve this height without transactions
 	return block, nil
 }
 
